@@ -1689,6 +1689,22 @@ func (fr *frame) loopHeader(b *ssa.BasicBlock, li *loopInfo, states []*State, co
 		}
 		vc.oblige("inv-entry", lab, bg, f, fmt.Sprintf("loop %d invariant %s holds on entry", li.ordinal, c.Text), fr.props, posOf(fr.fn, blockPos(b)))
 	}
+	// the implicit frame invariant (assumed at the header below, checked on every back edge) must also hold when the loop
+	// is entered: a write outside the modifies clause made *before* the loop would otherwise be forgotten at the header
+	if fr.top && fr.contract != nil && !fr.contract.Has("trusted-frame") {
+		if items, specified, err := parseModifies(fr.contract); err == nil && specified {
+			if fs, ok := fr.frameFormulas(items, fr.entry, pre, true); ok {
+				var cs []string
+				for c := range fs {
+					cs = append(cs, c)
+				}
+				sort.Strings(cs)
+				for _, c := range cs {
+					vc.oblige("inv-entry", fmt.Sprintf("loop%d:frame:%s", li.ordinal, strings.TrimPrefix(c, "H_")), bg, fs[c], "the frame condition holds when the loop is entered (class "+c+")", fr.props, posOf(fr.fn, blockPos(b)))
+				}
+			}
+		}
+	}
 	// havoc what the loop can change
 	st := pre.clone()
 	all, classes := fr.loopModifies(li)
